@@ -73,7 +73,10 @@ def run_controls(mod, pid, tier, res):
             fired = []
             detail = ""
             try:
-                mod.run(Context(tier, root=dst), res2)
+                # the long simulations of the thorough tier run on a control only when the rule it is expected
+                # to trigger belongs to them (API-*): everything else is decided by the quick rule set
+                ctl_tier = tier if any(str(r_).startswith("API-") for r_ in want) else "quick"
+                mod.run(Context(ctl_tier, root=dst), res2)
             except build.AnalysisBroken as e:
                 detail = "analysis broken on the patched copy: %s" % e
             fired = sorted({f.rule for f in res2.findings})
